@@ -745,7 +745,7 @@ fn main() {
     Check::new(
         "C16",
         "exploration",
-        "cases = operation histories (4..60 ops) over live handles (Buffer, BooleanBuffer, UInt8Array, ArrayData, exported FFI struct, MutableBuffer, Vec) referring to regions of four owner kinds (Vec, MutableBuffer, custom Allocation that scribbles 0xDD and counts releases, bytes::Bytes): new/clone/slice/wrap/unwrap/into_mutable/into_vec/unary_mut/into_builder/bit-mask &=/export/import/claim(pool a|b)/shrink_to_fit/drop, clones and drops optionally on a worker thread, final drops in generated order; invariant checked after every step. Second sub-check: C Data Interface round trip of arrays of every type/layout. Non-trivial history = a region shared by >=3 handles, an in-place attempt while shared and an in-place success when unique.",
+        "cases = operation histories (4..60 ops) over live handles (Buffer, BooleanBuffer, UInt8Array, ArrayData, exported FFI struct, MutableBuffer, Vec) referring to regions of four owner kinds (Vec, MutableBuffer, custom Allocation that scribbles 0xDD and counts releases, bytes::Bytes): new/clone/slice/wrap/unwrap/into_mutable/into_vec/unary_mut/into_builder/bit-mask &=/export/import/claim(pool a|b)/shrink_to_fit/drop, clones and drops optionally on a worker thread, final drops in generated order; invariant checked after every step. Second sub-check: C Data Interface round trip of arrays of every type/layout (equal values and validity, nothing changes when the exporter drops its handles, no owner of any exported buffer is left once every handle and FFI struct is dropped). Non-trivial history = a region shared by >=3 handles, an in-place attempt while shared and an in-place success when unique.",
     )
     .assume("in-place operations may decline for any reason; only success on shared memory (observed as another live handle changing) is a violation")
     .assume("threads are sequenced by join (the harness owns the order): instruction-level interleavings of Arc/Mutex operations are outside this technique (DESIGN §5)")
